@@ -5,6 +5,7 @@
    itself is validated against Go's encoding/json on every check run.
    Statements only; proofs in JsonDecProof.v. *)
 From Coq Require Import List ZArith.
+Require Import JsonFloat FloatProof.
 Require Import Tok CborDec CborParse JsonDec JsonParse JsonDecProof.
 Import ListNotations.
 Open Scope Z_scope.
@@ -56,3 +57,21 @@ Proof. vm_compute. reflexivity. Qed.
 Example C05_trailing_comma_not_strict :
   match jparse_item false [91;49;44;93] with PErr _ => True | _ => False end.
 Proof. vm_compute. exact I. Qed.
+
+(* Numbers: the decimal -> float64 conversion the decoder model uses (JsonFloat.nearest, what strconv.ParseFloat
+   computes) is the correctly rounded IEEE-754 binary64 value — nearest among all finite patterns, ties to even,
+   overflow exactly from the midpoint 2^1024 - 2^970 on — for every mantissa m and decimal exponent e10
+   (nd = number of digits of m).  [is_rne64 num den b] is stated by cross-multiplied integer inequalities. *)
+Theorem C05_decimal_to_float64_correctly_rounded : forall neg m e10 nd,
+  0 <= m -> (0 < m -> 10 ^ (nd - 1) <= m < 10 ^ nd) ->
+  match nearest neg m e10 nd with
+  | FBits b => exists b0, b = (if neg then b0 + SIGN64 else b0) /\ 0 <= b0 < INF64 /\
+                 (m = 0 -> b0 = 0) /\
+                 (0 < m -> is_rne64 (dec_num m e10) (dec_den e10) b0)
+  | FRange => 0 < m /\ ovf64 * dec_den e10 <= dec_num m e10
+  end.
+Proof. exact nearest_correct. Qed.
+Theorem C05_correct_rounding_is_unique : forall num den b1 b2, 0 < den ->
+  is_rne64 num den b1 -> is_rne64 num den b2 -> b1 = b2.
+Proof. exact is_rne64_unique. Qed.
+Print Assumptions C05_decimal_to_float64_correctly_rounded.
